@@ -213,6 +213,24 @@ theorem hashed_pure (c : MConsts) (key : Bytes) (parts : List Int) (rr₁ rr₂ 
   · simp [crc32Balance, hkl]
   · simp [murmur2Balance]
 
+/-- A user-supplied Hasher: the result never depends on what the hasher processed before (it is Reset on every
+call — extracted fact `hasher_reset_unconditional`), and with `fnv.New32a()` it is the default result. -/
+theorem custom_hasher_pure {σ : Type} (h : Hasher σ) (st₁ st₂ : σ) (key : Bytes) (n : Nat) (mask : UInt32) :
+    (hashBalanceWith h st₁ key n).2 = (hashBalanceWith h st₂ key n).2
+    ∧ (refHashBalanceWith h mask st₁ key n).2 = (refHashBalanceWith h mask st₂ key n).2 := ⟨rfl, rfl⟩
+
+theorem custom_fnv_eq_default (st : UInt32) (key : Bytes) (n : Nat) (mask : UInt32) :
+    (hashBalanceWith fnvHasher st key n).2 = hashIndex (fnv1a32 key) n
+    ∧ (refHashBalanceWith fnvHasher mask st key n).2 = refHashIndex mask (fnv1a32 key) n := ⟨rfl, rfl⟩
+
+theorem hasher_reset_unconditional : Gen.hashResetsFirst = true ∧ Gen.refHashResetsFirst = true := by decide
+
+/-- for EVERY 32-bit sum a (custom) hasher can return, incl. 0x80000000 where negating first would overflow -/
+theorem hashIndex_minInt32 (n : Nat) (h0 : 0 < n) (h : n < 2147483648) :
+    0 ≤ hashIndex 0x80000000 n ∧ hashIndex 0x80000000 n < n := hashIndex_range _ n h0 h
+
+example : hashIndex 0x80000000 3 = 2 ∧ hashIndex 0xFFFFFFFF 3 = 1 ∧ refHashIndex 0x7fffffff 0x80000000 3 = 0 := by decide
+
 /-! ## 6. RoundRobin -/
 
 /-- Partial (D10): for the first 2³² calls of a RoundRobin with `1 ≤ ChunkSize < 2³²`, call number `j`
